@@ -113,3 +113,74 @@ def frame_bytes(gen_n, to, frm, pid, mtype, data):
 
 def is_sym(x):
     return isinstance(x, (SymInt, SymBool))
+
+
+class ApiRig:
+    """The public API (pyairtouch.connect + init) on a virtual loop against a scripted console."""
+
+    def __init__(self, ctx, gen, inst, stub_reader=None):
+        from .console import Console
+        self.ctx = ctx
+        self.gen = gen
+        self.loop = make_loop(ctx)
+        self.net = FakeNet(self.loop, stub_reader=(ctx.symbolic if stub_reader is None else stub_reader))
+        self.net.install()
+        gen.reset_packet_counter()
+        self.console = Console(self, inst)
+        self.at = None
+        self.init_result = None
+        self.init_returned_at = None
+        self.init_exc = None
+        self.initialised_at_return = None
+
+    def start(self, at=0):
+        import pyairtouch
+        api = importlib.import_module("pyairtouch.api")
+        model = api.AirTouchModel.AIRTOUCH_4 if self.gen.n == 4 else api.AirTouchModel.AIRTOUCH_5
+
+        async def go():
+            try:
+                if self.at is None:
+                    self.at = pyairtouch.connect(model, "console.test", self.gen.port)
+                self.init_result = await self.at.init()
+            except Exception as e:  # noqa: BLE001
+                self.init_exc = e
+            self.init_returned_at = self.loop.time()
+            self.initialised_at_return = bool(self.at.initialised) if self.at is not None else None
+
+        if at == 0:
+            return self.loop.create_task(go())
+        self.loop.vt_call_at(at, lambda: self.loop.create_task(go()))
+        return None
+
+    def spawn(self, coro):
+        return self.loop.create_task(coro)
+
+    def run(self, until):
+        self.loop.vt_run(until)
+
+    def task_failures(self):
+        return list(self.loop.exceptions)
+
+    def close(self):
+        self.net.uninstall()
+        self.loop.vt_close()
+
+    def __enter__(self):
+        return self
+
+    def __exit__(self, *a):
+        self.close()
+
+    def ac(self, number):
+        for a in self.at.air_conditioners:
+            if a.ac_id == number:
+                return a
+        return None
+
+    def zone(self, number):
+        for a in self.at.air_conditioners:
+            for z in a.zones:
+                if z.zone_id == number:
+                    return z
+        return None
